@@ -136,6 +136,7 @@ fn faulty_payload(fault: &str, pos: &str) -> Vec<u8> {
         "int_i64_min_fact" => b.facts_v2[0].predicate.terms[0] = term(term_v2::Content::Integer(i64::MIN)),
         "bytes_empty" => b.facts_v2[0].predicate.terms[0] = term(term_v2::Content::Bytes(vec![])),
         "string_empty_symbol" => { b.symbols.push(String::new()); let i = 1024 + b.symbols.len() as u64 - 1; b.facts_v2[0].predicate.terms[0] = term(term_v2::Content::String(i)); }
+        f if f.starts_with("world_") => {}    // only meaningful inside a snapshot: the token carries the fault-free block
         "payload_garbage" => return vec![0xff, 0x13, 0x37, 0x00, 0x81, 0x82, 0x83, 0xff, 0xff, 0xff, 0xff, 0x0f],
         "payload_empty" => return vec![],
         o => panic!("unknown fault {o}"),
@@ -302,6 +303,27 @@ fn mint_snapshot(fault: &str, pos: &str, case: &Value) -> Result<Vec<u8>, String
     let a = AuthorizerBuilder::new().code("allow if true;").map_err(e)?.limits(limits()).build(&tok).map_err(e)?;
     let raw = a.to_raw_snapshot().map_err(|e| format!("{e:?}"))?;
     let mut snap = schema::AuthorizerSnapshot::decode(&raw[..]).map_err(|e| format!("{e:?}"))?;
+    if fault.starts_with("world_") {
+        // faults of the saved world itself
+        match fault {
+            "world_version_0" => snap.world.version = Some(0),
+            "world_version_2" => snap.world.version = Some(2),
+            "world_version_7" => snap.world.version = Some(7),
+            "world_version_absent" => snap.world.version = None,
+            "world_iterations_max" => snap.world.iterations = u64::MAX,
+            "world_limits_zero" => { snap.limits.max_facts = 0; snap.limits.max_iterations = 0; snap.limits.max_time = 0; }
+            "world_execution_time_max" => snap.execution_time = u64::MAX,
+            _ => {
+                // a generated fact whose origin names a block that does not exist
+                let f = snap.world.blocks[0].facts_v2[0].clone();
+                snap.world.generated_facts.push(schema::GeneratedFacts {
+                    origins: vec![schema::Origin { content: Some(schema::origin::Content::Origin(4000000000)) }],
+                    facts: vec![f],
+                });
+            }
+        }
+        return Ok(snap.encode_to_vec());
+    }
     let fb = schema::Block::decode(&faulty_payload(fault, "authority")[..]).map_err(|_| "the fault is not a block".to_string())?;
     if fb.symbols.len() != base_block(false).symbols.len() {
         snap.world.symbols = fb.symbols.clone();
